@@ -7,7 +7,7 @@ from reactivex import operators as ops
 
 from vlib.core import OK, Check
 from vlib.lab import conform
-from vlib.timeops import mk_trigger, sched_modes, sched_setup, CLOCKS, combine, cv, effective, execute_all, first_fire, fwd, judge, mk_lab, nelems, outcomes, second_sub, sources, sub_ticks, targ, triggers
+from vlib.timeops import mk_trigger, sched_modes, sched_setup, CLOCKS, combine, cv, effective, execute_all, first_fire, fwd, judge, mk_lab, nelems, outcomes, second_sub, sources, sub_ticks, targ, triggers, with_feedback
 
 PROPERTY_ID = "C16"
 LEVEL = "exploration"
@@ -23,7 +23,7 @@ RULE = (
     "observable): at each tick the latest not-yet-sampled element, completion at the first tick after the source completed, "
     "source error immediately. A timer/tick and a source notification at exactly the same instant may be ordered either way "
     "(one order per timer and instant; for sample one order for ALL ticks of a subscription: an element arriving exactly on a "
-    "tick is either always sampled by that tick or always by the next one). Non-trivial: >=1 element suppressed and >=1 emitted. In 1 case of 3 (not for sample with a sampler observable) the same built observable is subscribed a second time at a generated tick s1 in s0+{0,1,2,3,7} and the same per-subscription oracle is applied to that probe. Scheduler passing: debounce, throttle_first and sample(period) are run in the modes sub (no argument, subscription carries the lab scheduler), arg (scheduler argument, subscription carries none) and arg-other (argument, subscription carries a different never-started virtual scheduler reading +1000 ticks) and must behave identically; one in four throttle observables is a scheduler-less library factory (timer(d), empty(), return_value, never) and the sampler observable may be a scheduler-less interval(p): they must inherit the subscribe-time scheduler. Any request for the real-time TimeoutScheduler during a run is refused and reported (realtime-fallback), any action left on the decoy scheduler is reported (wrong-scheduler). Re-entrant feedback (check sample_feedback): sample(period) over a hot source into which the downstream pushes a new element while the k-th sample is being delivered - it arrived after that sample was taken, so it is the latest not-yet-sampled element at the next tick (ignored if the source had already completed). Distinct = distinct case JSON."
+    "tick is either always sampled by that tick or always by the next one). Non-trivial: >=1 element suppressed and >=1 emitted. In 1 case of 3 (not for sample with a sampler observable) the same built observable is subscribed a second time at a generated tick s1 in s0+{0,1,2,3,7} and the same per-subscription oracle is applied to that probe. Scheduler passing: debounce, throttle_first and sample(period) are run in the modes sub (no argument, subscription carries the lab scheduler), arg (scheduler argument, subscription carries none) and arg-other (argument, subscription carries a different never-started virtual scheduler reading +1000 ticks) and must behave identically; one in four throttle observables is a scheduler-less library factory (timer(d), empty(), return_value, never) and the sampler observable may be a scheduler-less interval(p): they must inherit the subscribe-time scheduler. Any request for the real-time TimeoutScheduler during a run is refused and reported (realtime-fallback), any action left on the decoy scheduler is reported (wrong-scheduler). Re-entrant feedback (check sample_feedback): sample(period) over a hot source into which the downstream pushes a new element while the k-th sample is being delivered - it arrived after that sample was taken, so it is the latest not-yet-sampled element at the next tick (ignored if the source had already completed). Check throttle_first_feedback: the consumer pushes a new element into the hot source from inside its on_next for the k-th emitted element; it arrives 0 < window after the last emitted element and must be suppressed. Distinct = distinct case JSON."
 )
 ASSUMPTIONS = [
     "throttle_first windows and sample periods are > 0 (documented precondition); debounce due time >= 0",
@@ -131,6 +131,34 @@ def _judge_tf(case, lab, p, s0, w):
         elif T - last == w - 1:
             cls.append("gap=window-1-suppressed")
     return _judge_nt("throttle_first", case, lab, p, [((), out)], cls, nelems({"tl": eff}))
+
+
+def _run_tf_fb(case):
+    """throttle_first over a hot source into which the consumer pushes element 1000+k from inside its on_next for the k-th
+    emitted element: the pushed element arrives at the same instant as the element just emitted, i.e. less than the window
+    after the last emitted one, and must be suppressed (window > 0); later elements are judged against the same last emission."""
+    lab = mk_lab(case["clock"])
+    s0, w = case["s0"], case["d"]
+    src = lab.source(case["src"])
+    fb = set(case["fb"])
+    probes = execute_all(lab, with_feedback(src.pipe(ops.throttle_first(targ(lab, case["form"], w))), src, fb), [s0])
+    pend = list(effective(case["src"], s0))
+    out, last, k, pushed = [], None, 0, 0
+    while pend:
+        m = pend.pop(0)
+        T, kd, v = m
+        if kd != "N":
+            out.append(fwd(m))
+            break
+        if last is None or T - last >= w:
+            out.append(fwd(m))
+            last = T
+            if k in fb:
+                pend.insert(0, [T, "N", f"n:{1000 + k}"])
+                pushed += 1
+            k += 1
+    cls = _base_cls(case) + ["feedback-during-delivery"] + (["feedback-element-suppressed"] if pushed else [])
+    return judge("throttle_first", case, lab, probes[0], [((), out)], cls, pushed >= 1)
 
 
 # ------------------------------------------------------------------------------ throttle_with_mapper
@@ -340,6 +368,14 @@ def _sample_cases(draw):
 
 
 @st.composite
+def _tf_fb_cases(draw):
+    w = draw(st.sampled_from([1, 2, 2, 3]))
+    s0, spec = draw(sources(d=w, max_len=5, min_len=1, kinds=("hot",)))
+    fb = sorted(set(draw(st.lists(st.integers(0, 3), min_size=1, max_size=2))))
+    return {"clock": draw(st.sampled_from(CLOCKS)), "s0": s0, "src": spec, "d": w, "form": draw(st.sampled_from(FORMS)), "fb": fb}
+
+
+@st.composite
 def _sample_fb_cases(draw):
     """sample(period) over a hot source into which the downstream pushes a new element while the k-th sample is delivered."""
     per = draw(st.sampled_from([1, 2, 2, 3]))
@@ -355,6 +391,7 @@ def checks(tier):
         Check("debounce", _run_debounce, strategy=_rel_cases([0, 1, 2, 2, 3, 5], alias=True), examples={"quick": 2400, "thorough": T * 12000}, shards=sh),
         Check("throttle_first", _run_tf, strategy=_rel_cases([1, 2, 2, 3, 5]), examples={"quick": 1600, "thorough": T * 8000}, shards=sh),
         Check("throttle_with_mapper", _run_twm, strategy=_twm_cases(), examples={"quick": 2000, "thorough": T * 8000}, shards=sh),
+        Check("throttle_first_feedback", _run_tf_fb, strategy=_tf_fb_cases(), examples={"quick": 400, "thorough": T * 2000}, shards=sh),
         Check("sample_feedback", _run_sample, strategy=_sample_fb_cases(), examples={"quick": 600, "thorough": T * 3000}, shards=sh),
         Check("sample", _run_sample, strategy=_sample_cases(), examples={"quick": 2000, "thorough": T * 12000}, shards=sh),
     ]
